@@ -123,6 +123,10 @@ func ErrorWrap(src string, pos int, code types.ParsingError) error {
 
 //go:noinline
 func error_wrap_heap(src string, pos int, code types.ParsingError) *SyntaxError {
+	/* the native scanners step up to 4 bytes over the end before they report EOF */
+	if pos > len(src) {
+		pos = len(src)
+	}
 	return &SyntaxError{
 		Pos:  pos,
 		Src:  src,
